@@ -228,6 +228,30 @@ theorem split_is_source (ps : List (Value N)) : Stdlib.split ps = SrcStdlib.spli
   · cases a <;> cases b <;> rfl
   · cases a <;> cases b <;> rfl
 
+theorem chr_is_source (ps : List (Value N)) : Stdlib.chr ps = SrcStdlib.chr ps := by
+  rcases ps with _ | ⟨a, _ | ⟨b, r⟩⟩
+  · rfl
+  · cases a
+    case num o => simp only [Stdlib.chr, SrcStdlib.chr]; split <;> rfl
+    all_goals rfl
+  · cases a <;> rfl
+theorem ord_is_source (ps : List (Value N)) : Stdlib.ord ps = SrcStdlib.ord ps := by
+  rcases ps with _ | ⟨a, _ | ⟨b, r⟩⟩
+  · rfl
+  · cases a
+    case str s =>
+      rcases s with _ | ⟨c, _ | ⟨d, t⟩⟩
+      · rfl
+      · simp only [Stdlib.ord, SrcStdlib.ord, List.length_singleton, beq_self_eq_true, if_true, List.all_cons, List.all_nil, Bool.and_true, List.head?_cons, Option.getD_some]
+        by_cases hc : c.toNat < 128
+        · simp [hc, Nat.mod_eq_of_lt (show c.toNat < 256 by omega)]
+        · simp [hc]; rfl
+      · simp [Stdlib.ord, SrcStdlib.ord]; rfl
+    all_goals rfl
+  · cases a
+    case str s => rcases s with _ | ⟨c, _ | ⟨d, t⟩⟩ <;> rfl
+    all_goals rfl
+
 /-! ### the position-coherence theorems of C15, restated about the functions translated from the source -/
 section capstone
 variable [LawfulIdx N] (off : Nat)
